@@ -3,8 +3,8 @@
 # confirms a seeded change (demo PASS on clean tree, FAIL with the change, repo suite still 134 passed) in a scratch
 # worktree, stores it under /verif/seeded/<PROP>_<A|B>/ and runs the given checks against the changed tree.
 prop=$1; ab=$2; shift 2
-src=/tmp/mutout/$prop
-id=${prop}_$ab
+src=${MUTSRC:-/tmp/mutout}/$prop
+id=${prop}_$ab${MUTSUFFIX:-}
 dst=/verif/seeded/$id
 wt=/tmp/seedwt_$id
 mkdir -p $dst
